@@ -181,16 +181,29 @@ def column_info_from_node(root):
         if table_name is None or table_name not in ['a', 'b']:
             return None
         slice_root = get_field(root, 'slice')
-        if slice_root is None or not isinstance(slice_root, ast.Index):
+        if slice_root is None:
             return None
-        slice_val_root = get_field(slice_root, 'value')
         column_index = None
         column_name = None
-        if isinstance(slice_val_root, ast.Str):
-            column_name = get_field(slice_val_root, 's')
-            table_name = None # We don't need table name for named fields
-        elif isinstance(slice_val_root, ast.Num):
-            column_index = get_field(slice_val_root, 'n') - 1
+        if hasattr(ast, 'Constant') and isinstance(slice_root, ast.Constant):
+            # Since Python 3.9 the subscript is stored directly (ast.Index is a deprecated no-op)
+            slice_val = get_field(slice_root, 'value')
+            if is_str6(slice_val):
+                column_name = slice_val
+                table_name = None # We don't need table name for named fields
+            elif isinstance(slice_val, int) and not isinstance(slice_val, bool):
+                column_index = slice_val - 1
+            else:
+                return None
+        elif isinstance(slice_root, ast.Index):
+            slice_val_root = get_field(slice_root, 'value')
+            if isinstance(slice_val_root, ast.Str):
+                column_name = get_field(slice_val_root, 's')
+                table_name = None # We don't need table name for named fields
+            elif isinstance(slice_val_root, ast.Num):
+                column_index = get_field(slice_val_root, 'n') - 1
+            else:
+                return None
         else:
             return None
         if not PY3 and isinstance(column_name, str):
